@@ -121,6 +121,17 @@ FIXED = [
     ("C20", "b4f512e", "`'abc'.split(/x*/)` was ['', 'a', 'b', 'c', ''], `'abc'.split(/b*/)` ['', 'a', '', 'c', ''], `''.split(/x*/)` two pieces: empty matches at the previous end and at the end of the string taken for separators"),
     ("C17", "e8d1609", "`a.set(a.subarray(0, 3), 1)` on [1,2,3,4] over one buffer gave 1,1,1,1 (ECMAScript: 1,1,2,3): source elements overwritten before they were read"),
     ("C06", "7f919c3", "`var a=7; a **= 2` was a SyntaxError: the exponentiation operator had no compound-assignment token"),
+    ("C17", "92e1ae4", "`[[1,2],[3]].join(';')` was '[object Object];[object Object]' and `[1,[2,3]] + ''` '1,[object Object]': array elements and ToPrimitive of arrays did not go through join; join(undefined) joined with 'undefined'"),
+    ("C06", "5025912", "`true === 1` and `false === 0` were true ([1].indexOf(true) was 0): bool is a subclass of int for the host"),
+    ("C06", "73d2d71", "`var x='5'; var y=x++` left y the string '5' (ECMAScript: the number 5); `true++`/`null++` likewise kept the old value unconverted"),
+    ("C18", "89a82de", "`Math.log2(0)`, `Math.log10(0)`, `Math.log1p(-1)` were NaN (ECMAScript: -Infinity); `1/Math.cbrt(-0)` was +Infinity"),
+    ("C16", "94dce16", "`'abc'.includes()`/startsWith()/endsWith() were true and indexOf() 0 (missing search string taken for ''), `'abc'.replace()` was 'undefinedabc', `'abc'.match(undefined)` null and search(undefined) -1"),
+    ("C20", "94dce16", "`/undefined/.test()` was false (missing string taken for ''), `new RegExp(undefined)` was /undefined/ and `new RegExp('a', undefined)` rejected its flags"),
+    ("C17", "94dce16", "`new Uint8Array([1,2]).join(undefined)` was '1undefined2'"),
+    ("C08", "94dce16", "`({'undefined':1}).hasOwnProperty()` was false; Object.assign() made an object and Object.create() used null (both TypeError in ECMAScript)"),
+    ("C17", "3b4bb62", "`new Float64Array([NaN, Infinity]).join()` was 'nan,inf': elements printed with the host's str()"),
+    ("C18", "b952845", "`parseInt('0x10', 10)` was 16 (ECMAScript: 0): the 0x prefix switched to base 16 whatever radix was passed"),
+    ("C17", "1c4bbcb", "`[[2],[1]].sort()` stayed [[2],[1]]: the default order compared every object as '[object Object]'"),
 ]
 
 
